@@ -24,6 +24,7 @@ import Martian.VdrAll
 import Proofs.VdrAll
 import Proofs.VdrDone
 import Proofs.VdrHyp
+import Proofs.VdrCover
 import Martian.VdrEval
 import Proofs.VdrEval
 
@@ -308,13 +309,13 @@ clone holds and that is not a completed consumer; and every holder the clone
 has was registered for the original at construction. -/
 theorem expanded_fork_safe (c c' : Cfg) (s0 : St) (evs evs' : List Ev) (disk : List DiskEnt)
     (ok' : CfgOK c' (cloneFork (run c s0 evs) disk)) (hv' : c'.volatile = true)
-    (ok : CfgOK c s0) (wf : DiskWF s0.disk) (fr : Fresh s0) (h0 : s0.report.count = 0 ∧ s0.report.size = 0)
+    (ok : CfgOK c s0) (fr : Fresh s0)
     (hv : c.volatile = true) (bk : BK s0) (hf : s0.final = false) :
     (∀ a h, Holds (cloneFork (run c s0 evs) disk) a h → Holds s0 a h) ∧
     ∀ d ∈ (run c' (cloneFork (run c s0 evs) disk) evs').removed, isTmp d.kind = false →
       ∀ a h, Holds (cloneFork (run c s0 evs) disk) a h → refs c' a d.path = true →
         ∃ n, h = some n ∧ n ∈ (run c' (cloneFork (run c s0 evs) disk) evs').doneNodes := by
-  obtain ⟨_, r⟩ := joint_run ok wf hv bk (XInv.init s0 fr h0) (RInv.init c s0 fr bk hf) evs
+  obtain ⟨_, r⟩ := VR.run ok hv bk (VInv.init s0 fr) (RInv.init c s0 fr bk hf) evs
   refine ⟨?_, ?_⟩
   · intro a h hh
     exact r.sh.holds a h ((cloneFork_holds _ disk a h).mp hh)
